@@ -15,6 +15,11 @@ argument is optional.  Keys of hyperedges: `Wire.natss?` (`H: 1,2,3`  `D: 1,2;3`
   expose <slot>      raw `expose_attributes_for_hashing()`                                -> tree | none
   pre <slot>         serialized pre-image                                                 -> tree | none
   content <slot>     canon (content tables)                                               -> tree
+  addnodes <slot> <n,n|-> <[v,v]|~>            add_nodes (one batched call; `~` = no metadata argument)       -> ok
+  addedges <slot> <0|1> <key/key|-> <[num,..]|~> <[v,..]|~>   add_edges (weights list given?, keys, weights, metadata) -> ok
+  build <slot> <kind> <0|1> <obj> <n,n|-> <[v,v]> <0|1> <key/key|-> <[num,..]|~> <[v,..]|~>   constructor with lists   -> ok
+  setnattr <slot> <n> <field> <v>   delnattr <slot> <n> <field>   seteattr <slot> <key> <field> <v>
+  deleattr <slot> <key> <field>   sethattr <slot> <field> <v>                             -> ok | rej
   cnew <slot> <kind> <0|1> <v>   cnode <slot> <n> <v>   cedge <slot> <key> <num> <v>      -> ok
   canon <slot>                                                                            -> tree
 -/
@@ -106,6 +111,30 @@ instance : WireKey KM where
 
 def key? {κ} [WireKey κ] (s : String) : Option κ := (natss? s).bind WireKey.parse
 
+def keys? {κ} [WireKey κ] (s : String) : Option (List κ) := listOf? "/" "-" (key? (κ := κ)) s
+
+/-- `~` = the argument is absent (every item gets `none`), else a wire list with one value per item -/
+def optArr? (s : String) (n : Nat) : Option (List (Option JTree)) :=
+  if s = "~" then some (List.replicate n none) else
+  match tree? s with
+  | some (.arr l) => if l.length = n then some (l.map some) else none
+  | _ => none
+
+def numOf? : JTree → Option (Option Num)
+  | .num x => some (some x)
+  | _ => none
+
+def optNums? (s : String) (n : Nat) : Option (List (Option Num)) :=
+  if s = "~" then some (List.replicate n none) else
+  match tree? s with
+  | some (.arr l) => if l.length = n then l.mapM numOf? else none
+  | _ => none
+
+def arrOf? (s : String) (n : Nat) : Option (List JTree) :=
+  match tree? s with
+  | some (.arr l) => if l.length = n then some l else none
+  | _ => none
+
 /-! ### slots -/
 inductive Slot where
   | th (t : Tables KH) | td (t : Tables KD) | tt (t : Tables KT) | tm (t : Tables KM)
@@ -162,6 +191,40 @@ def tabCmd {κ} [Kind κ] [WireKey κ] [SlotOf κ] (st : St) (slot : Nat) (t : T
     | some k, some w => acc st slot (step t (.setWeight k w))
     | _, _ => (st, "bad-op")
   | ["clear"] => acc st slot (step t .clear)
+  | ["addnodes", ns, mds] =>
+    match nats? ns with
+    | some ns =>
+      match optArr? mds ns.length with
+      | some mds => acc st slot (step t (.addNodes (ns.zip mds)))
+      | none => (st, "bad-op")
+    | none => (st, "bad-op")
+  | ["addedges", w, ks, ws, mds] =>
+    match keys? (κ := κ) ks with
+    | some ks =>
+      match optNums? ws ks.length, optArr? mds ks.length with
+      | some ws, some mds => acc st slot (step t (.addEdges (w == "1") (ks.zip (ws.zip mds))))
+      | _, _ => (st, "bad-op")
+    | none => (st, "bad-op")
+  | ["setnattr", n, f, v] =>
+    match n.toNat?, tree? v with
+    | some n, some v => acc st slot (step t (.setNodeAttr n f v))
+    | _, _ => (st, "bad-op")
+  | ["delnattr", n, f] =>
+    match n.toNat? with
+    | some n => acc st slot (step t (.delNodeAttr n f))
+    | _ => (st, "bad-op")
+  | ["seteattr", k, f, v] =>
+    match key? (κ := κ) k, tree? v with
+    | some k, some v => acc st slot (step t (.setEdgeAttr k f v))
+    | _, _ => (st, "bad-op")
+  | ["deleattr", k, f] =>
+    match key? (κ := κ) k with
+    | some k => acc st slot (step t (.delEdgeAttr k f))
+    | _ => (st, "bad-op")
+  | ["sethattr", f, v] =>
+    match tree? v with
+    | some v => acc st slot (step t (.setHAttr f v))
+    | _ => (st, "bad-op")
   | ["expose"] => (st, showOpt (expose? t))
   | ["pre"] => (st, showOpt (preimage? t))
   | ["content"] => (st, showTree (canon (content t)))
@@ -190,6 +253,16 @@ def mkNew (st : St) (slot : Nat) (kind : String) (w : Bool) (hm : JTree) : St ×
     | _ => (st, "bad-op")
   | _ => (st, "bad-op")
 
+def mkBuild (κ : Type) [Kind κ] [WireKey κ] [SlotOf κ] (st : St) (slot : Nat) (w : Bool) (hm : List (String × JTree))
+    (ns nmds ww ks ws mds : String) : St × String :=
+  match nats? ns, keys? (κ := κ) ks with
+  | some ns, some ks =>
+    match arrOf? nmds ns.length, optNums? ws ks.length, optArr? mds ks.length with
+    | some nmds, some ws, some mds =>
+      (AL.set st slot (SlotOf.tab (build κ w hm (ns.zip nmds) (ww == "1") (ks.zip (ws.zip mds)))), "ok")
+    | _, _, _ => (st, "bad-op")
+  | _, _ => (st, "bad-op")
+
 def mkCon (st : St) (slot : Nat) (kind : String) (w : Bool) (hm : JTree) : St × String :=
   match kind with
   | "H" => (AL.set st slot (SlotOf.con (κ := KH) { nodes := [], edges := [], hmeta := hm, weighted := w }), "ok")
@@ -202,6 +275,16 @@ def stepLine (st : St) : List String → St × String
   | ["new", slot, kind, w, hm] =>
     match slot.toNat?, tree? hm with
     | some s, some hm => mkNew st s kind (w == "1") hm
+    | _, _ => (st, "bad-op")
+  | ["build", slot, kind, w, hm, ns, nmds, ww, ks, ws, mds] =>
+    match slot.toNat?, tree? hm with
+    | some s, some (.obj l) =>
+      match kind with
+      | "H" => mkBuild KH st s (w == "1") l ns nmds ww ks ws mds
+      | "D" => mkBuild KD st s (w == "1") l ns nmds ww ks ws mds
+      | "T" => mkBuild KT st s (w == "1") l ns nmds ww ks ws mds
+      | "M" => mkBuild KM st s (w == "1") l ns nmds ww ks ws mds
+      | _ => (st, "bad-op")
     | _, _ => (st, "bad-op")
   | ["cnew", slot, kind, w, hm] =>
     match slot.toNat?, tree? hm with
